@@ -354,7 +354,7 @@ func c08CondRun(x *explore.Ctx) {
 func init() {
 	register("C08.cond", &explore.Scenario{
 		ID: "C08", Name: "generated conditions through the query engine", Level: "exploration",
-		Rule: "cases = 2 mixed-family databases x 16 chunks of the generated condition list (every leaf of the core alphabet incl. host/net sugar - all attributes x allowed comparators x alphabet values x prefixes {0,1,7,8,9,31,32}/{0,1,63,64,65,127,128} - plain and negated, plus every two-leaf tree ({&,|} x 4 negation placements) over 8 same-field leaves), with and without the time label; each condition is rendered to text and run through engine.QueryRunner.Run over 'any'; rows must equal the reference aggregation under the reference condition semantics (fixture.Eval). non-trivial = conditions selecting a proper non-empty subset",
+		Rule:     "cases = 2 mixed-family databases x 16 chunks of the generated condition list (every leaf of the core alphabet incl. host/net sugar - all attributes x allowed comparators x alphabet values x prefixes {0,1,7,8,9,31,32}/{0,1,63,64,65,127,128} - plain and negated, plus every two-leaf tree ({&,|} x 4 negation placements) over 8 same-field leaves), with and without the time label; each condition is rendered to text and run through engine.QueryRunner.Run over 'any'; rows must equal the reference aggregation under the reference condition semantics (fixture.Eval). non-trivial = conditions selecting a proper non-empty subset",
 		Cases:    func(t string) int { return 2 * c08CondChunks },
 		Bound:    func(t string) int { return 0 },
 		Run:      c08CondRun,
